@@ -51,7 +51,8 @@ Normalize(y, mo, d, h, mi, s, ms) ==
         tms == (secs % 86400) * 1000 + ms         \* < 86 400 000 + |ms|
         dcarry == secs \div 86400 + tms \div MsPerDay
         msod == tms % MsPerDay
-    IN IF yy < 1 \/ yy > 9999 THEN [ok |-> FALSE, d |-> 0, ms |-> 0]
+    \* only the RESULT has to lie in years 1..9999: an intermediate year outside (month 24 of 9999 with day -10000) is fine
+    IN IF yy < -100 \/ yy > 10100 THEN [ok |-> FALSE, d |-> 0, ms |-> 0]
        ELSE LET days == DaysFromCivil(yy, mm, d) + dcarry IN
             IF days < MinDay \/ days > MaxDay THEN [ok |-> FALSE, d |-> 0, ms |-> 0]
             ELSE [ok |-> TRUE, d |-> days, ms |-> msod]
